@@ -5,6 +5,8 @@ import os
 import random
 import types
 
+from .. import lib as vlib
+
 from ..gen import jsonvals, keys as gkeys, metadata as gmd
 from ..monitors import audit, boundary, gnupg, probes, sysmon
 from ..refs import canonjson, ed25519, openpgp
@@ -275,7 +277,7 @@ def repodata_target(lib, spec, rng, scratch, via_cli, big=False):
         trim("packages", 4)
         trim("packages.conda", 2)
     key = gkeys.from_seed_hex(gen["seed"])
-    path = os.path.join(scratch, rng.choice(TARGET_NAMES))
+    path = os.path.join(scratch, rng.choice(vlib.fs_names(TARGET_NAMES)))
     original = json.dumps(doc).encode("utf-8")
     parsed = json.loads(original)
     expected = canonjson.canon(c11.expected_doc(parsed, key))
@@ -299,7 +301,7 @@ def gpg_target(lib, spec, rng, scratch, via_cli, stub, home):
     env = gmd.envelope(md)
     # a pre-existing signature by another key: must survive
     gmd.sign_env(env, [gkeys.key(0)], True, rng)
-    path = os.path.join(scratch, rng.choice(["root.json", "1.root.json", "root.json.tmp", "root.tmp", "root.orig", "root", "r\u00f6\u00f6t.json"]))
+    path = os.path.join(scratch, rng.choice(vlib.fs_names(["root.json", "1.root.json", "root.json.tmp", "root.tmp", "root.orig", "root", "r\u00f6\u00f6t.json"])))
     original = json.dumps(env).encode("utf-8") if rng.random() < 0.5 else canonjson.canon(env)
     data = canonjson.canon(md)
     if stub:
@@ -379,7 +381,7 @@ def run_natural(spec, rec, lib):
     S = lib.signing
     key = gkeys.key(3)
     d = spec["scratch"]
-    path = os.path.join(d, random.Random(spec["seed"]).choice(TARGET_NAMES))
+    path = os.path.join(d, random.Random(spec["seed"]).choice(vlib.fs_names(TARGET_NAMES)))
     kp = os.path.join(d, "key.txt")
     good = {"info": {}, "packages": {"a-1-0.tar.bz2": {"name": "a"}, "b-1-0.tar.bz2": {"name": "b"}}, "packages.conda": {"c-1-0.conda": {"name": "c"}},
             "signatures": {"a-1-0.tar.bz2": {"ab" * 32: {"signature": "cd" * 64}}}}
